@@ -1074,6 +1074,529 @@ def check_witnesses():
     return out
 
 
+# ===================================================================== state-model correspondence (ties Properties/C10.lean to the code)
+# The Lean state model (EAO.Model.State, driver op "state_run") is run on the SAME operation sequence as the real objects.
+# After every operation the observable slots of both sides are compared:
+#   * which grid OBJECT the portfolio, every asset and every wrapped (base / inner) asset points to (`.timegrid`),
+#   * start / end of wrapped assets (clipped and restored by the structured asset),
+#   * per grid object the `restricted` slot (compared as VALUES: start, end, freq, T, I, dt of the restricted grid the
+#     model's writer token produces on that grid object vs the real `timegrid.restricted`) and the discount slot
+#     (`timegrid.discount_factors` vs the factors of the model's wacc token; also the snapshot inside `restricted`),
+#   * per operation what every primitive builder READ (`Used` of the model = slots of `self.timegrid` at the moment the
+#     builder's `setup_optim_problem` returns), in builder order,
+#   * the outcome class (ok / "no grid set").
+STATE_KINDS_PRIMITIVE = True
+
+
+def _naive_tok(ts):
+    t = pd.Timestamp(ts)
+    if t.tzinfo is not None:
+        t = t.tz_localize(None)
+    return int(t.value // 10 ** 9)
+
+
+class StateTie:
+    """model request builder + observer of the real objects of one World"""
+
+    def __init__(self, world):
+        self.W = world
+        self.tok2dt = {}
+        self.freqs = []
+        self.w2f = {}
+        self.objs = []            # grid objects by label (None: interval grid nobody references)
+        self.top = {}             # name -> index
+        self.nested = {}          # name -> (index, i)
+        self.assets_json = []
+        self.ok = True
+        self.why = None
+        self.primitives = []      # objects whose builder reads are recorded
+        self.storages = []
+        for idx, a in enumerate(world.assets):
+            self.top[a.name] = idx
+            if hasattr(a, 'base_asset'):
+                b = a.base_asset
+                if hasattr(b, 'base_asset') or isinstance(b, StructuredAsset):
+                    self.ok, self.why = False, 'nested-wrapper'
+                self.nested[b.name] = (idx, 0)
+                self.assets_json.append({'kind': 'scaled', 'p': self.params(a), 'base': self.params(b)})
+                self.primitives += [b, a]
+            elif isinstance(a, StructuredAsset):
+                inner = list(a.portfolio.assets)
+                for i, b in enumerate(inner):
+                    if hasattr(b, 'base_asset') or isinstance(b, StructuredAsset):
+                        self.ok, self.why = False, 'nested-wrapper'
+                    self.nested[b.name] = (idx, i)
+                if type(a) is not StructuredAsset:
+                    self.ok, self.why = False, 'linked-asset'
+                self.assets_json.append({'kind': 'structured', 'p': self.params(a), 'inner': [self.params(b) for b in inner]})
+                self.primitives += inner
+            else:
+                self.assets_json.append({'kind': 'plain', 'p': self.params(a)})
+                self.primitives.append(a)
+            if isinstance(a, eao.assets.Storage):
+                self.storages.append(a)
+        self.log = []
+
+    # ----- encoding
+    def tok(self, ts):
+        if ts is None:
+            return None
+        t = _naive_tok(ts)
+        self.tok2dt.setdefault(t, ts)
+        return t
+
+    def params(self, a):
+        f = None
+        if getattr(a, 'freq', None) is not None:
+            if a.freq not in self.freqs:
+                self.freqs.append(a.freq)
+            f = self.freqs.index(a.freq)
+        w = impl.fs(a.wacc)
+        self.w2f[w] = a.wacc
+        return {'start': self.tok(a.start), 'stop': self.tok(a.end), 'freq': f, 'wacc': w}
+
+    def label(self, obj, register=True):
+        for i, o in enumerate(self.objs):
+            if o is obj:
+                return i
+        if not register:
+            return None
+        self.objs.append(obj)
+        return len(self.objs) - 1
+
+    # ----- recording what the builders read / which storages computed a fill level
+    def __enter__(self):
+        self.log = []
+        for a in self.primitives:
+            orig = a.setup_optim_problem
+
+            def wrapped(*args, _o=orig, _a=a, **kw):
+                r = _o(*args, **kw)
+                tg = getattr(_a, 'timegrid', None)
+                self.log.append(('read', _a.name, tg, getattr(tg, 'restricted', None)))
+                return r
+            a.__dict__['setup_optim_problem'] = wrapped
+        for a in self.storages:
+            orig = a.fill_level
+
+            def wrapped_f(*args, _o=orig, _a=a, **kw):
+                self.log.append(('fill', _a.name, None, None))
+                return _o(*args, **kw)
+            a.__dict__['fill_level'] = wrapped_f
+        return self
+
+    def __exit__(self, *exc):
+        for a in self.primitives:
+            a.__dict__.pop('setup_optim_problem', None)
+        for a in self.storages:
+            a.__dict__.pop('fill_level', None)
+        return False
+
+    # ----- observables of the real objects
+    def ptr(self, obj):
+        tg = getattr(obj, 'timegrid', None)
+        if tg is None:
+            return None
+        l = self.label(tg, register=False)
+        return l if l is not None else 'unregistered-object'
+
+    def observe(self):
+        W = self.W
+        o = {'pf': self.ptr(W.portf), 'assets': [], 'grids': []}
+        for a in W.assets:
+            subs = []
+            if hasattr(a, 'base_asset'):
+                subs = [a.base_asset]
+            elif isinstance(a, StructuredAsset):
+                subs = list(a.portfolio.assets)
+            o['assets'].append({'grid': self.ptr(a), 'sub': [{'grid': self.ptr(b), 'start': None if b.start is None else _naive_tok(b.start),
+                                                              'stop': None if b.end is None else _naive_tok(b.end)} for b in subs]})
+        for tg in self.objs:
+            if tg is None:
+                o['grids'].append(None)
+                continue
+            o['grids'].append({'restricted': getattr(tg, 'restricted', None),
+                               'disc': None if getattr(tg, 'discount_factors', None) is None else np.array(tg.discount_factors, dtype=float, copy=True)})
+        return o
+
+    # ----- what the model's tokens mean on a real grid object
+    def expected(self, tg, slot, disc):
+        """the restricted grid `set_restricted_grid(start, end, freq)` builds on (a copy of) `tg` holding the factors of wacc `disc`"""
+        c = copy.copy(tg)
+        c.__dict__.pop('restricted', None)
+        if disc is None:
+            c.__dict__.pop('discount_factors', None)
+        else:
+            c.set_wacc(self.w2f[disc] if disc in self.w2f else float(Fraction(disc)))
+        if slot is None:
+            return c, None
+        start = self.tok2dt[slot[0]] if slot[0] is not None else c.start
+        end = self.tok2dt[slot[1]] if slot[1] is not None else c.end
+        freq = self.freqs[slot[2]] if slot[2] is not None else c.freq
+        return c, eao.Timegrid(start, end, freq=freq, main_time_unit=c.main_time_unit, ref_timegrid=c)
+
+    def writer_kind(self, slot):
+        if slot is None:
+            return 'empty'
+        t = tuple(slot)
+        for aj in self.assets_json:
+            pt = lambda q: (q['start'], q['stop'], q['freq'])
+            if aj['kind'] == 'plain' and pt(aj['p']) == t:
+                return 'plain-asset'
+            if aj['kind'] == 'scaled':
+                if pt(aj['base']) == t:
+                    return 'scaled-base'
+                if pt(aj['p']) == t:
+                    return 'scaled-wrapper'
+            if aj['kind'] == 'structured':
+                p = aj['p']
+                for q in aj['inner']:
+                    cs = q['start'] if p['start'] is None else (p['start'] if q['start'] is None else max(q['start'], p['start']))
+                    ce = q['stop'] if p['stop'] is None else (p['stop'] if q['stop'] is None else min(q['stop'], p['stop']))
+                    if (cs, ce, q['freq']) == t:
+                        return 'structured-inner-clipped' if (cs, ce) != (q['start'], q['stop']) else 'structured-inner'
+                    if pt(q) == t:
+                        return 'inner-direct'
+                if pt(p) == t:
+                    return 'structured-wrapper'
+        return 'slp-present/future'
+
+
+def _rt(r):
+    if r is None:
+        return None
+    return (str(r.start), str(r.end), str(r.freq), int(r.T), tuple(int(i) for i in np.asarray(r.I).ravel()),
+            tuple(float(x) for x in np.asarray(r.dt).ravel()))
+
+
+def _arr_eq(a, b):
+    if a is None or b is None:
+        return a is None and b is None
+    a, b = np.asarray(a, dtype=float), np.asarray(b, dtype=float)
+    return a.shape == b.shape and bool(np.array_equal(a, b))
+
+
+_GRID_MSG = ('imegrid',)
+
+
+def state_execute(case, drv, max_dis=6, version=None):
+    """runs the history on a world of its own, observes the slots after every operation and compares with the Lean state model.
+    returns {'disagreements': [{'component': 'state-model', 'detail'}], 'features': [...], 'ops': n compared, 'observables': n}"""
+    out = {'disagreements': [], 'features': [], 'ops': 0, 'observables': 0, 'histories': 0}
+    feats = out['features']
+    with Quiet():
+        try:
+            W = World(case)
+        except Exception as e:
+            feats.append('state-skip:build-error')
+            return out
+    T = StateTie(W)
+    if not T.ok:
+        feats.append('state-skip:' + T.why)
+        return out
+    steps = []          # per real operation: dict(call, group, raised, reads, obs)
+    last = None
+    res = None
+    aborted = None
+    for i, call0 in enumerate(case['history']):
+        call = dict(call0)
+        o = call['op']
+        if 'asset' in call and call['asset'] not in W.byname:
+            continue
+        if 'grid' in call and call['grid'] >= len(case['grids']):
+            call['grid'] = 0
+        call.pop('fix', None)
+        call.pop('skip', None)
+        g = None
+        if 'grid' in call and not call.get('noarg'):
+            try:
+                tg = W.grid(call['grid'], call.get('reuse', True))
+            except Exception:
+                aborted = 'grid-construction'
+                break
+            call['reuse'] = True
+            g = T.label(tg)
+        group = None
+        raised = None
+        nm = call.get('asset')
+        where = (('top', T.top[nm]) if nm in T.top else ('sub',) + T.nested[nm]) if nm is not None else None
+        with Quiet(), T:
+            try:
+                if o in ('asset_setup', 'asset_noarg'):
+                    gg = g if o == 'asset_setup' else None
+                    group = [{'call': 'setup', 'a': where[1], 'g': gg}] if where[0] == 'top' else [{'call': 'setupSub', 'a': where[1], 'i': where[2], 'g': gg}]
+                    run_setup_call(W, call)
+                elif o == 'set_timegrid':
+                    group = [{'call': 'setTimegrid', 'a': where[1], 'g': g}] if where[0] == 'top' else [{'call': 'setTimegridSub', 'a': where[1], 'i': where[2], 'g': g}]
+                    W.byname[nm].set_timegrid(tg)
+                elif o == 'pf_setup':
+                    group = [{'call': 'setupPortfolio', 'g': g}]
+                    k, v = run_setup_call(W, call)
+                    last = {'kind': 'problem', 'op': v, 'tg': getattr(W.portf, 'timegrid', None), 'pid': call['prices']}
+                    res = None
+                elif o == 'pf_split':
+                    group = [{'call': 'setupSplit', 'g': g, 'tmp': None}]
+                    k, v = run_setup_call(W, call)
+                    last = {'kind': 'split', 'op': v, 'tg': tg, 'pid': call['prices']}
+                    res = None
+                elif o == 'cost_samples':
+                    group = [{'call': 'setupPortfolio', 'g': g} for _ in call['prices']]
+                    run_setup_call(W, call)
+                elif o == 'io_optimize':
+                    group = [{'call': 'setupSplit', 'g': g, 'tmp': None}] if call.get('interval') else [{'call': 'setupPortfolio', 'g': g}]
+                    run_setup_call(W, call)
+                    last, res = None, None
+                elif o == 'optimize':
+                    group = []
+                    if last is not None:
+                        try:
+                            res = last['op'].optimize()
+                        except Exception:
+                            res = None
+                elif o == 'to_json':
+                    group = []
+                    try:
+                        t = call['target']
+                        eao.serialization.to_json(W.portf if t == 'portfolio' else (next(iter(W.grids.values())) if t == 'grid' and W.grids else W.byname.get(t, W.portf)))
+                    except Exception:
+                        pass
+                elif o in READ_OPS:
+                    if last is None or res is None or isinstance(res, str):
+                        continue
+                    if o in ('dcf', 'fill_level'):
+                        a = W.byname[nm]
+                        if where[0] != 'top' or (o == 'fill_level' and not isinstance(a, eao.assets.Storage)):
+                            continue
+                        group = [{'call': 'dcf', 'a': where[1]}] if o == 'dcf' else []      # fill_level: from the log
+                    elif o == 'extract':
+                        group = []
+                    elif o == 'make_slp':
+                        if last['kind'] != 'problem' or pf.is_mip(last['op']):
+                            continue
+                        tgl = last['tg']
+                        kk = min(call['k'], tgl.T - 1)
+                        sf = tgl.timepoints[max(1, kk)] if tgl.T > 1 else tgl.timepoints[0]
+                        group = [{'call': 'makeSlp', 'g': T.label(tgl), 't': T.tok(sf)}]
+                    run_read_call(W, call, last['op'], res, W.prices(last['pid']), last['tg'])
+                else:
+                    continue
+            except Exception as e:
+                raised = e
+        if group is None:
+            continue
+        reads = [x for x in T.log if x[0] == 'read']
+        fills = [x for x in T.log if x[0] == 'fill']
+        # grid objects the code created itself (interval grids of a split) get the next labels, in order of first use
+        new = []
+        for _, _, tgo, _ in reads:
+            if tgo is not None and T.label(tgo, register=False) is None:
+                new.append(T.label(tgo))
+        for c in group:
+            if c['call'] == 'setupSplit':
+                c['tmp'] = list(new)
+        if o in ('extract', 'io_optimize', 'fill_level'):
+            group = group + [{'call': 'fillLevel', 'a': T.top[n]} for _, n, _, _ in fills if n in T.top]
+        steps.append({'i': i, 'call': call0, 'group': group, 'raised': raised, 'reads': reads, 'obs': T.observe(),
+                      'compare_reads': o not in ('make_slp',)})
+        if raised is not None and not any(m in str(raised) for m in _GRID_MSG) and not isinstance(raised, AttributeError):
+            aborted = 'exception:' + err_class(raised)       # an exception the slot model does not know: state after it is not modelled
+            steps[-1]['unmodelled'] = True
+            break
+    if aborted:
+        feats.append('state-abort:' + aborted)
+    if not steps:
+        return out
+    req = {'op': 'state_run', 'assets': T.assets_json, 'grids': len(T.objs), 'ops': [st['group'] for st in steps]}
+    if version is not None:       # self-check of the comparison only: an OLD code version of the model must disagree with the repaired code
+        req['version'] = version
+    m = drv.ok(req)
+    out['histories'] = 1
+    dis = []
+
+    def D(st, msg):
+        if len(dis) < max_dis:
+            dis.append({'component': 'state-model', 'detail': 'after call %d (%s) [model calls %s]: %s' % (
+                st['i'], _call_str(st['call']), [c['call'] for c in st['group']], msg)})
+
+    for st, ms in zip(steps, m['steps']):
+        if st.get('unmodelled'):
+            # the model must at least not have failed for lack of a grid where the code got past that check
+            break
+        out['ops'] += 1
+        for c in st['group']:
+            feats.append('state-op:' + c['call'] + ('(no grid arg)' if c['call'] in ('setup', 'setupSub', 'setupPortfolio') and c.get('g') is None else ''))
+        # theorem at run time: what the model's builders read is what setupPure predicts
+        if ms['results'] != ms['pure']:
+            D(st, 'model-internal: setupSt result %s differs from setupPure %s' % (ms['results'], ms['pure']))
+        # outcome class
+        m_err = any('err' in r for r in ms['results'])
+        out['observables'] += 1
+        if m_err != (st['raised'] is not None):
+            D(st, 'outcome: model %s vs real %s' % ('noGrid' if m_err else 'ok', 'raised %s: %s' % (type(st['raised']).__name__, str(st['raised'])[:120]) if st['raised'] is not None else 'ok'))
+            break
+        feats.append('state-outcome:' + ('no-grid' if m_err else 'ok'))
+        # builder reads
+        if st['compare_reads'] and not m_err:
+            used = [u for r in ms['results'] for u in r.get('ok', [])]
+            if len(used) != len(st['reads']):
+                D(st, 'builder reads: model %d vs real %d (%s)' % (len(used), len(st['reads']), [x[1] for x in st['reads']]))
+            else:
+                for u, (_, name, tgo, ro) in zip(used, st['reads']):
+                    out['observables'] += 3
+                    lbl = T.label(tgo, register=False) if tgo is not None else None
+                    if lbl != u['grid']:
+                        D(st, 'builder %s works on grid object %s (real) vs %s (model)' % (name, lbl, u['grid']))
+                        continue
+                    try:
+                        c, exp = T.expected(tgo, u['restricted'], u['disc'])
+                    except Exception as e:
+                        feats.append('state-expected-error:' + err_class(e))
+                        continue
+                    if _rt(exp) != _rt(ro):
+                        D(st, 'builder %s read restricted grid %s (real) vs %s (model token %s)' % (name, _rt(ro)[:4] if ro is not None else None, _rt(exp)[:4] if exp is not None else None, u['restricted']))
+                    elif not _arr_eq(getattr(exp, 'discount_factors', None), getattr(ro, 'discount_factors', None)):
+                        D(st, 'builder %s read discount factors that are not those of wacc %s (model)' % (name, u['disc']))
+                    feats.append('state-read:' + T.writer_kind(u['restricted']))
+        # pointers
+        ob = st['obs']
+        out['observables'] += 1
+        if ob['pf'] != ms['pf']:
+            D(st, 'portfolio grid pointer: real %s vs model %s' % (ob['pf'], ms['pf']))
+        for ai, (ra, ma) in enumerate(zip(ob['assets'], ms['assets'])):
+            out['observables'] += 1
+            if ra['grid'] != ma['grid']:
+                D(st, 'asset %s grid pointer: real %s vs model %s' % (W.assets[ai].name, ra['grid'], ma['grid']))
+            if len(ra['sub']) != len(ma['sub']):
+                D(st, 'asset %s: %d wrapped assets (real) vs %d (model)' % (W.assets[ai].name, len(ra['sub']), len(ma['sub'])))
+                continue
+            for si, (rs, msb) in enumerate(zip(ra['sub'], ma['sub'])):
+                out['observables'] += 3
+                for k in ('grid', 'start', 'stop'):
+                    if rs[k] != msb[k]:
+                        D(st, 'asset %s wrapped asset %d %s: real %s vs model %s' % (W.assets[ai].name, si, k, rs[k], msb[k]))
+        # grid slots
+        for gi, (rg, mg) in enumerate(zip(ob['grids'], ms['grids'])):
+            if rg is None:
+                continue
+            tgo = T.objs[gi]
+            out['observables'] += 2
+            try:
+                c, exp = T.expected(tgo, mg['restricted'], mg['disc'])
+            except Exception as e:
+                feats.append('state-expected-error:' + err_class(e))
+                continue
+            if _rt(exp) != _rt(rg['restricted']):
+                D(st, 'grid object %d restricted slot: real %s vs model token %s = %s' % (gi, (_rt(rg['restricted']) or [None])[:4], mg['restricted'], (_rt(exp) or [None])[:4]))
+            elif exp is not None and not _arr_eq(getattr(exp, 'discount_factors', None), getattr(rg['restricted'], 'discount_factors', None)):
+                D(st, 'grid object %d: discount factors inside the restricted grid are not those of the discount slot (wacc %s)' % (gi, mg['disc']))
+            if not _arr_eq(getattr(c, 'discount_factors', None), rg['disc']):
+                D(st, 'grid object %d discount slot: real factors are not those of wacc %s (model)' % (gi, mg['disc']))
+            feats.append('state-writer:' + T.writer_kind(mg['restricted']) + ('/interval-grid' if gi >= 0 and getattr(tgo, '_c10_interval', False) else ''))
+        if dis:
+            break
+    out['disagreements'] = dis
+    return out
+
+
+def gen_state_case(rnd):
+    """histories aimed at the slot logic: windows and waccs everywhere, scaled / structured / order book / storages,
+    two or three grid objects of different horizon (one shared by everything), direct, portfolio, split set-ups and cost samples"""
+    kinds = ['simple', 'contract', 'storage', 'storage', 'orderbook', 'scaled', 'scaled', 'structured', 'structured', 'transport']
+    base = gen.gen_portfolio(rnd, kinds=kinds, tmax=8, tz_prob=0.1, allow_mip=False, max_assets=rnd.choice([2, 3, 4]),
+                             allow_freq=rnd.random() < 0.3, allow_periodic=False, allow_blocks=False)
+    g0 = base['grid']
+    for a in scen.all_asset_specs(base):
+        if a['type'] == 'OrderBook':
+            if rnd.random() < 0.5:
+                a['args']['wacc'] = rnd.choice([0.05, 0.1, 0.5])
+            continue
+        args = a['args']
+        if 'freq' not in args and a['type'] != 'ScaledAsset' and 'start' not in args and 'end' not in args and rnd.random() < 0.6:
+            gen.put_window(args, gen.window(rnd, g0, kinds=['inside', 'inside', 'start_only', 'end_only', 'straddle_start', 'straddle_end', 'covering', 'offgrid', 'after']))
+        if a['type'] == 'ScaledAsset' and rnd.random() < 0.5:
+            gen.put_window(args, gen.window(rnd, g0, kinds=['inside', 'start_only', 'end_only', 'covering']))
+        if rnd.random() < 0.6:
+            args['wacc'] = rnd.choice([0.0, 0.05, 0.1, 0.5])
+    grids = [dict(g0)]
+    step = pd.Timedelta(seconds=g0['step_s'])
+    s0, e0, T0 = pd.Timestamp(g0['start']), pd.Timestamp(g0['end']), g0['T_nominal']
+    for _ in range(rnd.randint(1, 2)):
+        g = {k: g0[k] for k in ('start', 'end', 'freq', 'unit', 'tz', 'step_s')}
+        kind = rnd.choice(['shift', 'shorter', 'longer', 'unit'])
+        if kind == 'shift':
+            k = rnd.choice([-2, -1, 1, 2])
+            g['start'], g['end'] = gen.iso(s0 + k * step), gen.iso(e0 + k * step)
+        elif kind == 'shorter' and T0 >= 3:
+            a_ = rnd.randint(0, T0 - 2)
+            g['start'], g['end'] = gen.iso(s0 + a_ * step), gen.iso(s0 + rnd.randint(a_ + 1, T0) * step)
+        elif kind == 'longer':
+            g['end'] = gen.iso(e0 + rnd.randint(1, 3) * step)
+        else:
+            g['unit'] = rnd.choice([u for u in ('h', 'd', 'min') if u != g0['unit']])
+        try:
+            gen.fix_grid(g)
+        except Exception:
+            continue
+        if _T(g):
+            g['kind'] = kind
+            grids.append(g)
+    Ts = [_T(g) for g in grids]
+    keys = list(base['prices'].keys())
+    prices = [{'T': T_, 'form': 'dict', 'data': {k: [rnd.choice(base['prices'][k]) for _ in range(T_)] for k in keys}} for T_ in Ts]
+    names = spec_names(base)
+    top = [n for n, t, tp in names if tp]
+    storages = [n for n, t, tp in names if tp and t == 'Storage']
+    hist = []
+    tracked = {}
+    n_ops = rnd.randint(3, 8)
+    while len(hist) < n_ops:
+        gid = rnd.randrange(len(grids))
+        reuse = rnd.random() < 0.8
+        r = rnd.random()
+        if r < 0.22:
+            nm = rnd.choice(names)[0]
+            hist.append({'op': 'asset_setup', 'asset': nm, 'grid': gid, 'reuse': reuse, 'prices': gid})
+            tracked[nm] = gid
+        elif r < 0.30:
+            nm = rnd.choice(names)[0]
+            hist.append({'op': 'set_timegrid', 'asset': nm, 'grid': gid, 'reuse': reuse})
+            tracked[nm] = gid
+        elif r < 0.45:
+            nm = rnd.choice(names)[0]
+            hist.append({'op': 'asset_noarg', 'asset': nm, 'prices': tracked.get(nm, gid)})
+        elif r < 0.62:
+            c = {'op': 'pf_setup', 'grid': gid, 'reuse': reuse, 'prices': gid}
+            if rnd.random() < 0.15 and '__pf__' in tracked:
+                c = {'op': 'pf_setup', 'grid': tracked['__pf__'], 'noarg': True, 'prices': tracked['__pf__']}
+            hist.append(c)
+            for n, _, _ in names:
+                tracked[n] = c['grid']
+            tracked['__pf__'] = c['grid']
+            if rnd.random() < 0.5:
+                hist.append({'op': 'optimize', 'soft': False})
+                hist.append({'op': rnd.choice(['extract', 'fill_level', 'dcf', 'make_slp']), 'asset': rnd.choice(storages or top), 'k': rnd.randint(1, 3), 'prices': [gid]})
+        elif r < 0.78:
+            iv = _tick(max(1, Ts[gid] // rnd.choice([2, 3])) * grids[gid]['step_s'])
+            hist.append({'op': 'pf_split', 'grid': gid, 'reuse': reuse, 'prices': gid, 'interval': iv})
+            for n in top:
+                tracked[n] = gid
+            tracked['__pf__'] = gid
+        elif r < 0.90:
+            hist.append({'op': 'cost_samples', 'grid': gid, 'reuse': reuse, 'prices': [gid] * rnd.randint(1, 2)})
+            for n, _, _ in names:
+                tracked[n] = gid
+            tracked['__pf__'] = gid
+        else:
+            c = {'op': 'io_optimize', 'grid': gid, 'reuse': reuse, 'prices': gid}
+            if rnd.random() < 0.4:
+                c['interval'] = _tick(max(1, Ts[gid] // 2) * grids[gid]['step_s'])
+            hist.append(c)
+            for n in top:
+                tracked[n] = gid
+            tracked['__pf__'] = gid
+    return {'base': base, 'grids': grids, 'prices': prices, 'history': hist, 'state_case': True}
+
+
 def selftest(n, seed, drv=None, verbose=False, do_shrink=True):
     """n random histories; returns counts, violations (shrunk, de-duplicated by (kind, op)), facts histogram"""
     rnd = random.Random(seed)
